@@ -22,6 +22,7 @@ from typing import List, Optional, Union
 from xsdata.formats.dataclass.context import XmlContext
 from xsdata.formats.dataclass.parsers import DictDecoder, JsonParser
 from xsdata.formats.dataclass.serializers import DictEncoder, JsonSerializer
+from xsdata.formats.dataclass.serializers.config import SerializerConfig
 from xsdata.formats.dataclass.serializers.dict import DictFactory
 from xsdata.models.datatype import XmlDate, XmlDateTime, XmlDuration
 
@@ -232,7 +233,9 @@ def run(args):
             except Exception as e:  # noqa: BLE001
                 out["dict"] = f"decode raised {type(e).__name__}: {str(e)[:160]}"
             try:
-                text = JsonSerializer(context=XmlContext(), dict_factory=fac).render(obj)
+                # the indentation of the text is a serializer option the parser must not care about
+                indent = [None, 2, 0, 1][args["seed"] % 4]
+                text = JsonSerializer(context=XmlContext(), config=SerializerConfig(indent=indent), dict_factory=fac).render(obj)
                 back = JsonParser(context=XmlContext()).from_string(text, clazz)
                 out["json"] = "identity" if same(back, obj) else f"changed: {back!r:.400} != {obj!r:.400}"
             except Exception as e:  # noqa: BLE001
@@ -240,6 +243,50 @@ def run(args):
     finally:
         u.close()
     return out
+
+
+def run_shared(args):
+    """the round trips of several universes (same class names, different classes) and repeats, all through ONE
+    XmlContext and one encoder / decoder / serializer / parser per factory: outcomes in order"""
+    built = [build({"seed": s, "doc": d}) for s, d in args["steps"]]
+    ctx = XmlContext()
+    tools = {}
+    for name, fac in FACTORIES.items():
+        tools[name] = (DictEncoder(context=ctx, dict_factory=fac), DictDecoder(context=ctx),
+                       JsonSerializer(context=ctx, dict_factory=fac), JsonParser(context=ctx))
+    outs = []
+    try:
+        with warnings.catch_warnings():
+            warnings.simplefilter("ignore")
+            for i, (u, obj, clazz) in enumerate(built):
+                enc, dec, ser, par = tools[args["factories"][i % len(args["factories"])]]
+                o = {}
+                try:
+                    data = enc.encode(obj)
+                    back = dec.decode(data, clazz)
+                    o["dict"] = "identity" if same(back, obj) else f"changed: {back!r:.300} != {obj!r:.300}"
+                except Exception as e:  # noqa: BLE001
+                    o["dict"] = f"raised {type(e).__name__}: {str(e)[:160]}"
+                try:
+                    back = par.from_string(ser.render(obj), clazz)
+                    o["json"] = "identity" if same(back, obj) else f"changed: {back!r:.300} != {obj!r:.300}"
+                except Exception as e:  # noqa: BLE001
+                    o["json"] = f"raised {type(e).__name__}: {str(e)[:160]}"
+                outs.append(o)
+    finally:
+        for u, _, _ in built:
+            u.close()
+    return outs
+
+
+def expected_shared(args):
+    """each step on its own, with fresh contexts: what sharing must not change"""
+    outs = []
+    for i, (s, d) in enumerate(args["steps"]):
+        a = {"seed": s, "doc": d, "factory": args["factories"][i % len(args["factories"])]}
+        r = run(a)
+        outs.append({"dict": r["dict"] if not r["dict"].startswith("decode raised") else "raised" + r["dict"][len("decode raised"):], "json": r["json"]})
+    return outs
 
 
 EXPECTED = {"dumps": "ok", "dict": "identity", "json": "identity"}
